@@ -40,6 +40,7 @@ Definition parse_prim (p : prim) (ts : list Z) : option (pdat * list Z) :=
       end
   | PConstant _ _ m _ => match takeN m ts with Some (v, r) => Some (DConst v, r) | None => None end
   | PIdentity _ _ => Some (DIdent, ts)
+  | PProbe _ _ _ _ => Some (DIdent, ts)
   end.
 
 Fixpoint parse_layers (ls : list layer) (p : prim) (ts : list Z) : option (list cfg * pdat * list Z) :=
